@@ -75,3 +75,56 @@ def attrRefs : List Str :=
   textRefs ++ [['q', 'u', 'o', 't', ';'], ['a', 'p', 'o', 's', ';'], ['#', '1', '3', ';'], ['#', '1', '0', ';']]
 
 end HtmlVerif
+
+namespace HtmlVerif
+
+/-! ### the property-level notion of a correct escape (independent of *which* reference is chosen)
+
+`validEscape specials orig out`: reading `orig` and `out` in parallel, every character of `orig` that is in
+`specials` appears in `out` as *some* character reference (named, decimal or hexadecimal) that decodes to it,
+and every other character appears unchanged.  This is what C02/C03 state; the model's particular choice
+(`&amp;`, `&#13;`, …) is one instance (`validEscape_spec` in Lemmas/Decode.lean). -/
+
+def hexDigitVal? (c : Char) : Option Nat :=
+  if '0' ≤ c ∧ c ≤ '9' then some (c.toNat - '0'.toNat)
+  else if 'a' ≤ c ∧ c ≤ 'f' then some (c.toNat - 'a'.toNat + 10)
+  else if 'A' ≤ c ∧ c ≤ 'F' then some (c.toNat - 'A'.toNat + 10)
+  else none
+
+/-- `#x` hexdigits `;` -/
+def crMatchHex : Str → Option (Char × Nat)
+  | '#' :: x :: r =>
+    if x = 'x' ∨ x = 'X' then
+      let ds := r.takeWhile fun c => (hexDigitVal? c).isSome
+      if ds.isEmpty then none
+      else if (r.drop ds.length).head? = some ';' then
+        let n := ds.foldl (fun a c => 16 * a + (hexDigitVal? c).getD 0) 0
+        if n < 0x110000 then some (Char.ofNat n, ds.length + 3) else none
+      else none
+    else none
+  | _ => none
+
+def crMatchAny (rest : Str) : Option (Char × Nat) :=
+  match crMatchRef rest with
+  | some r => some r
+  | none => crMatchHex rest
+
+def validEscape (specials : List Char) : Str → Str → Bool
+  | [], out => out.isEmpty
+  | c :: cs, out =>
+    if specials.contains c then
+      match out with
+      | '&' :: rest =>
+        match crMatchAny rest with
+        | some (d, n) => d == c && validEscape specials cs (rest.drop n)
+        | none => false
+      | _ => false
+    else
+      match out with
+      | d :: rest => d == c && validEscape specials cs rest
+      | [] => false
+
+def textSpecials : List Char := ['&', '<', '>']
+def attrSpecials : List Char := ['&', '<', '>', '"', '\'', '\r', '\n']
+
+end HtmlVerif
